@@ -227,10 +227,10 @@ func init() {
 			"under the documented conditions (R-EVALORDER, R-MAPRANGE); the operator×operand matrix implemented by the evaluator and admitted by " +
 			"the parser equals the specification's table (R-DISPATCH); every operator case computes the Go operation its symbol stands for on (left, right) in this order, " +
 			"in the evaluator and — through the compiler's operator→opcode table — on the VM (R-OPSEM); concatenation and repetition build their own storage and repetition " +
-			"deep-copies also through an any (R-FRESH, R-EVALMISC).",
-		NotDecided:  "IEEE arithmetic of the Go operators themselves, the element-wise part of deep equality on arrays, the whitespace-sensitive tokenisation.",
+			"deep-copies also through an any (R-FRESH, R-EVALMISC); == on arrays compares lengths and then element i with element i, false on the first difference, true only behind the loop; on basic values it is == of the payloads, on an any type and value (R-EQDEEP, R-MAPEQ).",
+		NotDecided:  "IEEE arithmetic of the Go operators themselves, the whitespace-sensitive tokenisation, what print renders for each value.",
 		Assumptions: []string{"docs/spec.md keeps its `## Precedence` numbered list and its operator table (otherwise the check is undecided, never silent)"},
-		Rules:       []*Rule{rulePrec, ruleEvalOrder, ruleDispatch, ruleOpSem, ruleMapRange, ruleWSSClose, ruleMapEq, ruleEvalMisc, ruleFresh},
+		Rules:       []*Rule{rulePrec, ruleEvalOrder, ruleDispatch, ruleOpSem, ruleMapRange, ruleWSSClose, ruleMapEq, ruleEqDeep, ruleEvalMisc, ruleFresh},
 	})
 }
 
@@ -303,7 +303,7 @@ func init() {
 			"every placeholder jump is patched (R-JUMPPATCH) and the translation of every node kind is stack-neutral or leaves exactly its value, so no statement runs on another statement's operands (R-STACKEFFECT).",
 		NotDecided:  "Equality of final globals in general; slot arithmetic of the symbol table; constant pooling.",
 		Assumptions: []string{},
-		Rules:       []*Rule{exhaustRule("Compile", 20), fieldCovRule("Compile"), ruleDispatch, ruleOpSem, ruleLoopVarScope, ruleVMValues, runesRule("pkg/bytecode", "stringVal", 4), f2iRule("pkg/bytecode", 2), ruleSlotMax, ruleJumpPatch, ruleStackEffect},
+		Rules:       []*Rule{exhaustRule("Compile", 20), fieldCovRule("Compile"), ruleDispatch, ruleOpSem, ruleLoopVarScope, ruleVMValues, runesRule("pkg/bytecode", "stringVal", 4), f2iRule("pkg/bytecode", 2), ruleSlotMax, ruleJumpPatch, ruleStackEffect, ruleEqDeep},
 	})
 }
 
